@@ -51,6 +51,7 @@ import (
 
 var (
 	c10BurstReps  = flag.Int("c10.burstreps", 0, "C10 burst: executions of every generated round (0 = the scenario's own number)")
+	c10BurstName  = flag.String("c10.burstname", "burst", "C10 burst: name of the part in the result file (the same test is registered plain and with -race)")
 	c10DiffBudget = flag.Int("c10.diffbudget", 200000, "C10: sequential operations the differential oracle may execute per history before it is inconclusive")
 )
 
@@ -131,9 +132,13 @@ func (b *burstRun) racer(g int, wg *sync.WaitGroup) {
 	ops := b.ops[g]
 	cur := b.initial[g]
 	if b.sc.Aligned {
-		b.arrived.Add(1)
+		// start barrier: the last racer to arrive releases the others, who spin
+		// briefly (each on a processor of its own) and yield after that
+		if b.arrived.Add(1) == int32(len(b.ops)) {
+			b.goFlag.Store(1)
+		}
 		for i := 0; b.goFlag.Load() == 0; i++ {
-			if !b.spin || i > 20000 {
+			if !b.spin || i > 2000 {
 				runtime.Gosched()
 			}
 		}
@@ -210,12 +215,6 @@ func (sc *BurstScenario) runOnce(stall, confirm time.Duration) (h *History, stuc
 	wg.Add(n)
 	for g := 0; g < n; g++ {
 		go b.racer(g, &wg)
-	}
-	if sc.Aligned {
-		for b.arrived.Load() < int32(n) {
-			runtime.Gosched()
-		}
-		b.goFlag.Store(1)
 	}
 	if stuck, deadlock = watched("ctreeprop.(*burstRun).racer", stall, confirm, wg.Wait); stuck != "" {
 		b.goFlag.Store(1)
@@ -378,13 +377,12 @@ func TestC10Burst(t *testing.T) {
 	if !vstat.Enabled("C10") {
 		t.Skip()
 	}
-	rec := vstat.New("C10", "burst")
+	rec := vstat.New("C10", *c10BurstName)
 	rl := newRaceLog()
 	if !raceEnabled {
 		rl = nil
 	}
 	rl.fresh()
-	rounds := 0
 	rec.RunRapid(t, func(rt *rapid.T) {
 		sc := genBurst(rt)
 		rec.Current(sc)
@@ -393,14 +391,12 @@ func TestC10Burst(t *testing.T) {
 			reps = *c10BurstReps
 		}
 		labels, nontrivial, n, fail := runBurst(sc, reps, rl)
-		rounds += n
 		if fail != nil {
 			rt.Fatalf("%s", rec.Fail(sc, fail.class, "%s", fail.msg))
 		}
-		rec.Case(sc, nontrivial, labels...)
+		// every generated scenario is run on a fresh tree that many times: total rounds = sum over these labels
+		rec.Case(sc, nontrivial, append(labels, fmt.Sprintf("rounds-per-case-%d", n))...)
 	})
-	rec.Note("burst: %d rounds executed (every generated scenario is run on a fresh tree that many times; schedules are the real scheduler's); race detector %v", rounds, raceEnabled && rl != nil)
-	rec.Flush(true)
 }
 
 // replayBurst runs a saved burst scenario again (many more executions than the
@@ -419,13 +415,17 @@ func replayBurst(rf *vstat.ReplayFile) string {
 		rl = nil
 	}
 	rl.fresh()
-	if _, _, _, fail := runBurst(&sc, reps, rl); fail != nil {
-		if sc.Witness != nil {
-			for i := range sc.Witness.Ops {
-				fmt.Println("  ", sc.Witness.Ops[i].String())
+	for _, aligned := range []bool{sc.Aligned, true} {
+		// as recorded, then (again) with the start barrier, which hits narrow windows far more often
+		sc.Aligned = aligned
+		if _, _, _, fail := runBurst(&sc, reps, rl); fail != nil {
+			if sc.Witness != nil {
+				for i := range sc.Witness.Ops {
+					fmt.Println("  ", sc.Witness.Ops[i].String())
+				}
 			}
+			return fail.class + ": " + fail.msg
 		}
-		return fail.class + ": " + fail.msg
 	}
 	if wit != nil {
 		fmt.Println("NOTE: the schedule did not come back; the recorded history of the failing execution is re-judged")
@@ -453,7 +453,7 @@ func genBurst(t *rapid.T) *BurstScenario {
 	if rapid.IntRange(0, 4).Draw(t, "focusdepth") >= 2 {
 		focus = rapid.SliceOfN(rapid.SampledFrom(elems), 1, 2).Draw(t, "focus")
 	}
-	nilOK := rapid.IntRange(0, 2).Draw(t, "nilvalues") == 0
+	nilOK := rapid.IntRange(0, 4).Draw(t, "nilvalues") < 2
 	cat := func(p []string, more ...string) []string { return append(append([]string{}, p...), more...) }
 	elem := func(t *rapid.T) string { return rapid.SampledFrom(elems).Draw(t, "e") }
 	relPath := func(t *rapid.T) []string {
@@ -530,7 +530,11 @@ func genBurst(t *rapid.T) *BurstScenario {
 		return o
 	}
 	// setup: which state the racers find
-	switch state := rapid.IntRange(0, 9).Draw(t, "state"); {
+	state := rapid.IntRange(0, 9).Draw(t, "state")
+	if nilOK && len(focus) > 0 && rapid.Bool().Draw(t, "nilfocus") {
+		state = 4
+	}
+	switch {
 	case state < 2: // fresh
 	case state < 4: // used and emptied again by a delete
 		k := rapid.IntRange(1, 2).Draw(t, "used")
